@@ -69,6 +69,12 @@ def tasks(tier):
                    abort_kind="falsy-object", sleeper="call" if "deco" not in e else "policy",
                    max_unknown=None, strat_menu=[1, 0], strat_free=True)
         out.append({"family": "abort-falsy-token", "cfg": cfg, "entry": e, "bound": 1})
+    # a long-lived context object whose abort_if (and sleeper) are assigned after .context()
+    for mode, e in itertools.product(["answer", "flag"], ["Policy.contextset", "Retry.contextset", "RetryPolicy.contextset",
+                                                           "AsyncPolicy.contextset", "AsyncRetry.contextset"]):
+        cfg = dict(M=M, alphabet=["ok", "x:T", "r:T"], abort=True, abort_mode=mode, sleeper="call",
+                   max_unknown=None, strat_menu=[1, 0], strat_free=True)
+        out.append({"family": "abort-context-assigned", "cfg": cfg, "entry": e, "bound": 1})
     for e in POL0:
         cfg = dict(M=1, alphabet=ALPHA, abort=True)
         out.append({"family": "abort-noretry", "cfg": cfg, "entry": e, "bound": 1})
